@@ -733,7 +733,7 @@ class VectorAwkward:
                     dict(zip(names, arrays)),
                     depth_limit=first.layout.purelist_depth,
                     with_name=_class_to_name(cls),
-                    behavior=None if vector._awkward_registered else first.behavior,
+                    behavior=None if vector._awkward_registered else self.behavior,
                 )
             )
 
@@ -787,7 +787,7 @@ class VectorAwkward:
                     dict(zip(names, arrays)),
                     depth_limit=first.layout.purelist_depth,
                     with_name=_class_to_name(cls.ProjectionClass2D),
-                    behavior=None if vector._awkward_registered else first.behavior,
+                    behavior=None if vector._awkward_registered else self.behavior,
                 )
             )
 
@@ -850,7 +850,7 @@ class VectorAwkward:
                     dict(zip(names, arrays)),
                     depth_limit=first.layout.purelist_depth,
                     with_name=_class_to_name(cls),
-                    behavior=None if vector._awkward_registered else first.behavior,
+                    behavior=None if vector._awkward_registered else self.behavior,
                 )
             )
 
@@ -916,7 +916,7 @@ class VectorAwkward:
                     dict(zip(names, arrays)),
                     depth_limit=first.layout.purelist_depth,
                     with_name=_class_to_name(cls.ProjectionClass3D),
-                    behavior=None if vector._awkward_registered else first.behavior,
+                    behavior=None if vector._awkward_registered else self.behavior,
                 )
             )
 
@@ -990,7 +990,7 @@ class VectorAwkward:
                     dict(zip(names, arrays)),
                     depth_limit=first.layout.purelist_depth,
                     with_name=_class_to_name(cls.ProjectionClass4D),
-                    behavior=None if vector._awkward_registered else first.behavior,
+                    behavior=None if vector._awkward_registered else self.behavior,
                 )
             )
 
